@@ -699,10 +699,16 @@ def h_create_snapshot_wf(h: H):
         mut = TheoryObj("mutator")
         h.reg.theory_methods[("mutator", "__call__")] = lambda I, o, a, k: shrink_contract(W, shr, "mutator")(I, None, a, k)
     h.reg.contracts[f"{SM}:SnapshotManager._apply_retention"] = shrink_contract(W, shr, "retention")
-    h.reg.contracts[f"{MM}:MetadataManager.refresh"] = lambda I, fv, a, k: md.obj
+    refreshed = []
+    h.reg.contracts[f"{MM}:MetadataManager.refresh"] = lambda I, fv, a, k: refreshed.append(1) or md.obj
 
     def commit(I, fv, args, kwargs):
         commits.append((args[1], args[2]))
+        k = I.ctx.choose(3, "commit-outcome")
+        if k == 1:
+            raise PyRaise(SExc("ConcurrentModificationException", origin="conflict", fields={"conflict": True}))
+        if k == 2:
+            raise PyRaise(SExc("AmbiguousCommitError", origin="ambiguous", fields={"ambiguous": True}))
         return None
     h.reg.contracts[f"{MM}:MetadataManager.commit"] = commit
     W.assume_wf(st0)
@@ -713,9 +719,12 @@ def h_create_snapshot_wf(h: H):
                      {"operation": "append", "parent_snapshot_id": parent, "base_metadata": md.obj, "snapshot_id": sid,
                       "metadata_mutator": mut, "sequence_number": seq})
     W.assume_wf(st0)
-    h.ensure("CREATE:never-raises-by-itself", out == "ok", detail=repr(val) if out != "ok" else "")
+    h.ensure("DERIVE:create_snapshot-does-not-re-read-the-base", not refreshed)
     if out != "ok":
-        return
+        h.ensure("CREATE:raises-only-what-the-commit-raised", bool(val.fields.get("conflict") or val.fields.get("ambiguous")), detail=repr(val))
+    else:
+        h.ensure("DERIVE:returned-snapshot-carries-the-caller's-id,list-path-and-the-base's-schema",
+                 isinstance(val, SObj) and val.fields.get("snapshot_id") is sid and val.fields.get("schema_id") is md.schema_id)
     h.ensure("CREATE:exactly-one-commit-of-(base,separate-copy)", len(commits) == 1 and commits[0][0] is md.obj and commits[0][1] is not md.obj)
     if len(commits) != 1:
         return
@@ -734,6 +743,7 @@ def h_create_snapshot_wf(h: H):
     entry1 = lambda x: z3.If(x == sid.z, new_entry, W.entry0(x))
     n1, v1 = st1["cur"]
     h.ensure("CREATE:the-new-snapshot-becomes-current-and-is-retained", z3.And(z3.Not(n1), v1 == sid.z, sel(st1["smem"], sid.z)))
+    h.ensure("DERIVE:sequence-number=given-or-base.last+1", sel(st1["seq"], sid.z) == st0["lsn"] + 1)
     h.ensure("CREATE:last_sequence_number-never-decreases-and-covers-the-new-snapshot",
              z3.And(st1["lsn"] >= st0["lsn"], st1["lsn"] >= sel(st1["seq"], sid.z)))
     v = W.S[0]
@@ -857,12 +867,136 @@ sys.exit(1 if bad else 0)
 '''
 
 
+
+# =================================================================================== _append_metadata_log
+PVMAX = "write.metadata.previous-versions-max"
+
+
+def h_metadata_log(h: H):
+    """MLOG: the superseded version is appended once, at the end, with the timestamp that version carried; the order of the
+    older entries is kept; only the oldest entries are dropped, and only down to the configured bound (default 100; an invalid
+    or non-positive bound never empties the log)."""
+    c = h.ctx
+    F.declare(h, "MLogEntry", {"file": "str", "ts": "int"})
+    F.install(h.reg)
+    key_of = {"metadata-file": "file", "timestamp-ms": "ts"}
+
+    def conv(I, x):
+        if isinstance(x, PDict) and set(x.d) == set(key_of):
+            return {key_of[k]: v for k, v in x.d.items()}
+        return None
+    c.ghost.setdefault("forest_convert", {})["MLogEntry"] = conv
+
+    def entry_get(I, recv, args, kw):
+        k = I.force(args[0])
+        if not isinstance(k, str) or k not in key_of:
+            return args[1] if len(args) > 1 else None
+        return I.heap_get(recv, key_of[k])
+    h.reg.methods[("MLogEntry", "get")] = entry_get
+    log0 = F.fresh_reflist(c, "MLogEntry", "metadata_log")
+    cls = log0.fields["cls"]
+    raw = SOpt(c.fresh_bool("bound_unset"), SStr(c.fresh_str("bound_raw")))
+    new = SObj("TableMetadata", {"metadata_log": log0, "properties": PDict({PVMAX: raw})}, label="new_metadata")
+    base_ts = h.int("base_last_updated_ms")
+    base = SObj("TableMetadata", {"last_updated_ms": base_ts}, label="base_metadata")
+    mm = h.obj("MetadataManager", metadata_path="metadata")
+    prev = h.str("previous_metadata_file")
+    w, u = z3.Int("witness_log_entry_0"), z3.Int("witness_log_entry_1")
+    for t in (w, u):
+        h.report(str(t), t)
+        F.know(c, cls, t)
+    mem0, pos0, n0 = log0.fields["mem"], log0.fields["dom"]["pos"], log0.fields["n"]
+    arrs = c.ghost["heap"]
+    file0, ts0 = arrs[(cls, "file")], arrs[(cls, "ts")]
+    out, val = h.run(f"{MM}:MetadataManager._append_metadata_log", [mm, new, base, prev])
+    h.ensure("MLOG:never-raises", out == "ok", detail=repr(val) if out != "ok" else "")
+    if out != "ok":
+        return
+    log1 = new.fields["metadata_log"]
+    sel = z3.Select
+    path = z3.Concat(z3.StringVal("metadata/"), prev.z)
+    if log1 is log0:
+        # unchanged: only when the last entry already names the superseded file
+        last = c.fresh_int("last")
+        F.know(c, cls, last)
+        h.ensure("MLOG:left-unchanged-only-when-the-superseded-version-is-already-the-last-entry",
+                 z3.And(n0 > 0, z3.Implies(z3.And(sel(mem0, last), sel(pos0, last) == n0 - 1), sel(file0, last) == path)))
+        return
+    if not F.is_reflist(log1):
+        h.fail("MLOG:metadata_log-stays-a-list-of-entries")
+        return
+    mem1, pos1, n1 = log1.fields["mem"], log1.fields["dom"]["pos"], F.b_len(h.I, log1).z
+    file1, ts1 = arrs[(log1.fields["cls"], "file")], arrs[(log1.fields["cls"], "ts")]
+    apps = [a for a in c.ghost.get("forest_appends", []) if F.base_cls(a["list"].fields["cls"]) == "MLogEntry"]
+    h.ensure("MLOG:exactly-one-entry-appended", len(apps) == 1)
+    if len(apps) != 1:
+        return
+    e = apps[0]["addr"]
+    h.ensure("MLOG:the-superseded-version-is-recorded,last,with-its-own-timestamp",
+             z3.And(sel(mem1, e), sel(file1, e) == path, sel(ts1, e) == base_ts.z,
+                    z3.Implies(z3.And(sel(mem1, w), w != e), sel(pos1, w) < sel(pos1, e))))
+    h.ensure("MLOG:older-entries-are-kept-unmodified-and-in-order",
+             z3.And(z3.Implies(z3.And(sel(mem1, w), w != e), z3.And(sel(mem0, w), sel(file1, w) == sel(file0, w), sel(ts1, w) == sel(ts0, w))),
+                    z3.Implies(z3.And(sel(mem1, w), sel(mem1, u), w != e, u != e), (sel(pos1, w) < sel(pos1, u)) == (sel(pos0, w) < sel(pos0, u)))))
+    h.ensure("MLOG:only-the-oldest-entries-are-dropped",
+             z3.Implies(z3.And(sel(mem0, w), sel(mem0, u), sel(pos0, w) < sel(pos0, u), sel(mem1, w)), sel(mem1, u)))
+    from pyvc.theories import pybuiltins as pb
+    nd, ws = pb.re_decimal(), pb.re_ws()
+    body = z3.Concat(nd, z3.Star(z3.Concat(z3.Option(z3.Re("_")), nd)))
+    grammar = z3.Concat(z3.Star(ws), z3.Option(z3.Union(z3.Re("+"), z3.Re("-"))), body, z3.Star(ws))
+    valid = z3.And(z3.Not(raw.isnone), z3.InRe(raw.val.z, grammar))
+    bound = z3.If(valid, pb.PYINT(raw.val.z), z3.IntVal(100))          # unset / not an integer -> default 100
+    h.ensure("MLOG:length-is-min(old+1,bound)-for-a-positive-bound,old+1-otherwise",
+             n1 == z3.If(z3.And(bound >= 1, n0 + 1 > bound), bound, n0 + 1))
+    h.ensure("MLOG:log-never-emptied", n1 >= 1)
+
+
+
+def _replay_mlog(ob):
+    return '''
+import sys, os, tempfile, shutil, json, glob
+from datashard import create_table
+from datashard.data_structures import Schema
+bad = []
+root = tempfile.mkdtemp(prefix="pyvc_replay_")
+sch = Schema(schema_id=1, fields=[{"id": 1, "name": "a", "type": "long", "required": False}])
+try:
+    for bound, want in (("2", 2), ("1", 1), ("0", None), ("-3", None), ("abc", None), (None, None)):
+        p = os.path.join(root, "t_" + str(bound))
+        t = create_table(p, schema=sch)
+        if bound is not None:
+            b = t.metadata_manager.refresh(); b.properties["write.metadata.previous-versions-max"] = bound
+            t.metadata_manager.commit(t.metadata_manager.refresh(), b)
+        stamps = {}
+        for i in range(4):
+            m0 = t.metadata_manager.refresh()
+            t.append_records([{"a": i}])
+        m = t.metadata_manager.refresh()
+        log = m.metadata_log
+        files = sorted(glob.glob(os.path.join(p, "metadata", "v*.metadata.json")), key=lambda f: int(os.path.basename(f)[1:].split(".")[0].split("-")[0]))
+        superseded = files[:-1]
+        names = ["metadata/" + os.path.basename(f) for f in superseded]
+        exp = names[-want:] if want else names[-100:]
+        got = [e["metadata-file"] for e in log]
+        if got != exp: bad.append((bound, "log", got, "expected", exp))
+        for e in log:
+            f = os.path.join(p, e["metadata-file"])
+            if not os.path.exists(f): bad.append((bound, "names a missing version", e["metadata-file"])); continue
+            if json.load(open(f)).get("last_updated_ms") != e["timestamp-ms"]: bad.append((bound, "timestamp is not the superseded version's", e))
+finally:
+    shutil.rmtree(root, ignore_errors=True)
+print("replay metadata log ->", bad[:3] or "ok")
+sys.exit(1 if bad else 0)
+'''
+
+
 UNITS = {
     "REPOINT/repoint_parents_to_surviving_ancestors": (h_repoint, [f"{SM}:repoint_parents_to_surviving_ancestors"], _replay_repoint),
     "WF-PRESERVE/_apply_retention": (h_apply_retention, [f"{SM}:SnapshotManager._apply_retention"], _replay_wf),
     "WF-PRESERVE/expire-mutator": (h_expire_mutator, [f"{TX}:Transaction._make_expire_mutator"], _replay_wf),
     "WF-PRESERVE/delete_snapshot": (h_delete_snapshot_wf, [f"{SM}:SnapshotManager.delete_snapshot"], _replay_wf),
     "WF-PRESERVE/create_snapshot": (h_create_snapshot_wf, [f"{SM}:SnapshotManager.create_snapshot"], _replay_wf),
+    "MLOG/_append_metadata_log": (h_metadata_log, [f"{MM}:MetadataManager._append_metadata_log"], _replay_mlog),
 }
 UNITS_C09 = {
     "REPOINT-CUR/_most_recent_snapshot_id": (h_most_recent, [f"{SM}:SnapshotManager._most_recent_snapshot_id"], _replay_lookup),
